@@ -55,7 +55,7 @@ def abstract_case(draw, spec, cp):
         elif k == 'Q':
             ops.append(dict(op='Q', pick=draw(pick())))
         elif k == 'X':
-            ops.append(dict(op='X', mode=draw(st.sampled_from(['a', 's', 's'])), val=draw(valuation()),
+            ops.append(dict(op='X', mode=draw(st.sampled_from(cp.get('xmodes', ['a', 's', 's']))), val=draw(valuation()),
                             scripts=draw(scripts(nev, cp.get('scripts')))))
         elif k == 'T':
             ops.append(dict(op='T', val=draw(valuation())))
@@ -149,7 +149,11 @@ class Exec:
             line = cases.op_str(c)
             if self.auto_probe and c['op'] not in ('B', 'N'):
                 line += ' B'
-            toks = cases.normalise(sut.run(line), sut.idmap)
+            try:
+                toks = cases.normalise(sut.run(line), sut.idmap)
+            except (SUT.SutCrash, SUT.SutHang) as e:
+                e.concrete = concrete + [c]
+                raise
             for t in reversed(toks):
                 if t.startswith('ids{'):
                     ids = self.static.parse_ids(t)
@@ -170,6 +174,19 @@ class Exec:
                 line += ' B'
             per_op.append(cases.normalise(sut.run(line), sut.idmap))
         return per_op
+
+
+def crash_sig(e, concrete=None):
+    """signature of a crash / hang; specific diagnosers for recorded findings"""
+    if e.rc == 'hang':
+        return 'hang'
+    err = getattr(e, 'err', '') or ''
+    has_throw = any(sc and sc[0] == 't' for c in (concrete or []) for lst in (c.get('scripts') or {}).values() for sc in lst)
+    if "state_id == current_state_id" in err and 'front::none' in err and has_throw:
+        # backmp11: a completion occurrence pushed while a submachine was being entered survives an exception that aborts
+        # the entry; it is executed later against a state that is not active (assertion in transition::execute)
+        return 'mp11_stale_completion_occurrence_after_throw_in_entry'
+    return 'crash'
 
 
 class Violation(Exception):
@@ -217,8 +234,14 @@ def run_job(job):
         try:
             concrete, per_op = ex.run(acase)
         except (SUT.SutCrash, SUT.SutHang) as e:
-            v = Violation('SUT crashed: rc=%s %s' % (e.rc, e.err[-600:]), sig='hang' if e.rc == 'hang' else 'crash')
-            state['last_fail'] = dict(case=acase_to_json(acase), msg=v.msg, sig=v.sig, abstract=True)
+            v = Violation('SUT crashed: rc=%s %s' % (e.rc, e.err[-600:]), sig=crash_sig(e, getattr(e, 'concrete', None)))
+            if v.sig in known:
+                res['classes']['excluded_known:' + v.sig] = res['classes'].get('excluded_known:' + v.sig, 0) + 1
+                return
+            if getattr(e, 'concrete', None):
+                state['last_fail'] = dict(case=e.concrete, msg=v.msg, sig=v.sig)
+            else:
+                state['last_fail'] = dict(case=acase_to_json(acase), msg=v.msg, sig=v.sig, abstract=True)
             raise v
         variants = [(concrete, per_op, None)]
         if job.get('mode') == 'fault_enum':
@@ -229,7 +252,7 @@ def run_job(job):
                 if fi < len(per_op):
                     for t in per_op[fi]:
                         pp_ = oracles.parse(t)
-                        if pp_ and pp_[0] in ('g', 'a', 'en', 'ex', 'xc'):
+                        if pp_ and pp_[0] in ('g', 'a', 'en', 'ex', 'xc') and not (pp_[0] == 'g' and pp_[3] == 'none'):
                             K += 1
                 variants = []
                 for k in range(min(K, 40)):
@@ -240,9 +263,14 @@ def run_job(job):
                     try:
                         pk = ex.replay(ck)
                     except (SUT.SutCrash, SUT.SutHang) as e:
-                        v = Violation('SUT crashed: rc=%s %s' % (e.rc, e.err[-600:]), sig='hang' if e.rc == 'hang' else 'crash')
-                        state['last_fail'] = dict(case=ck, msg=v.msg, sig=v.sig)
+                        e.concrete = ck
+                        v = Violation('SUT crashed: rc=%s %s' % (e.rc, e.err[-600:]), sig=crash_sig(e, ck))
                         state['sut'] = SUT.Sut(job['bin'], env=job.get('env'))
+                        ex = Exec(spec, static, state['sut'], auto_probe=job['cp'].get('auto_probe', False))
+                        if v.sig in known:
+                            res['classes']['excluded_known:' + v.sig] = res['classes'].get('excluded_known:' + v.sig, 0) + 1
+                            continue
+                        state['last_fail'] = dict(case=ck, msg=v.msg, sig=v.sig)
                         raise v
                     variants.append((ck, pk, dict(fault_index=fi, k=k, baseline=per_op)))
                 if not variants:
@@ -329,14 +357,23 @@ def run_job_multi(job):
             if suts[c].dead:
                 suts[c] = SUT.Sut(job['bins'][c], env=job.get('env'))
         base = cfgs[0]
+        concrete = None
         try:
             concrete, per0 = Exec(spec, static, suts[base], auto_probe=job['cp'].get('auto_probe', False)).run(acase)
             runs = {base: per0}
             for c in cfgs[1:]:
                 runs[c] = Exec(spec, static, suts[c], auto_probe=job['cp'].get('auto_probe', False)).replay(concrete)
         except (SUT.SutCrash, SUT.SutHang) as e:
-            v = Violation('SUT crashed: rc=%s %s' % (e.rc, e.err[-600:]), sig='hang' if e.rc == 'hang' else 'crash')
-            state['last_fail'] = dict(case=acase_to_json(acase), msg=v.msg, sig=v.sig, abstract=True)
+            if concrete is not None and not getattr(e, 'concrete', None):
+                e.concrete = concrete
+            v = Violation('SUT crashed: rc=%s %s' % (e.rc, e.err[-600:]), sig=crash_sig(e, getattr(e, 'concrete', None)))
+            if v.sig in known:
+                res['classes']['excluded_known:' + v.sig] = res['classes'].get('excluded_known:' + v.sig, 0) + 1
+                return
+            if getattr(e, 'concrete', None):
+                state['last_fail'] = dict(case=e.concrete, msg=v.msg, sig=v.sig)
+            else:
+                state['last_fail'] = dict(case=acase_to_json(acase), msg=v.msg, sig=v.sig, abstract=True)
             raise v
         res['evaluations'] += 1
         ctx = oracles.Ctx(spec, static, base, concrete, per0, job)
